@@ -283,7 +283,9 @@ class DirichletOperator(MCMCOperator):
         self._scaler = math.exp(-value)
 
     def _step(self) -> Tensor:
-        old_values = self.parameters[0].tensor
+        # a copy: the tensor of a view shares its storage with the parameter the
+        # proposal is written into
+        old_values = self.parameters[0].tensor.clone()
         scaled_old = old_values * self._scaler
         dist_old = torch.distributions.Dirichlet(scaled_old)
         new_values = dist_old.sample()
